@@ -14,6 +14,16 @@
 //        -> s <feed() results> <finish()> <ok <value> | err ... of error()>
 //   svia dump <indent> <indent_char> <ensure_ascii> <sort_keys> <src> <order|->   Json::dump(...)
 //   svia <ostream|string> <src> <order|->     operator<< / operator std::string
+//   locale <name> <decimal point hex>   setlocale(LC_NUMERIC, name) (the plugin builds the locales with localedef and sets LOCPATH)
+//        -> locale <hex of localeconv()->decimal_point> | locale-unavailable
+//   serlim <limits...> <pretty> <sort> <indent hex> <src v...> <order|->   serialize, re-parse under the GIVEN limits
+//        -> <length of the text> <1 iff it parses back to an equal value>
+//   api u64 <n> | f32 <8 hex> | initlist <[..]> | pushback <base> <v> | setidx <base> <i> <v> | setkey <base> <hex key> <v>
+//        the value-construction API (Json(uint64_t), Json(float), initializer-list ctor, copy assignment + push_back / operator[])
+//        -> ok <result> <operand after the call> <hex of the sorted compact text> <1 iff it parses back to an equal value>
+//   deepser <a|o> <depth>            (implementation only) build `depth` nested containers programmatically, dump(), re-parse
+//        with depthMax raised, compare, copy, destroy -> ok <text length> <eq>
+//   counters                         (implementation only) branch counters of this process so far
 //   stackuse <a|o> <depth>           (implementation only) bytes of stack parse+serialize+destroy of `depth` nested containers use
 //   src = t<hex text> (value = parse of the text, default limits)  |  v<value> (built programmatically, members
 //   inserted with operator[] in the order given).
@@ -22,6 +32,8 @@
 // The text handed to the parser lives in a heap block of exactly its size, so that a read at _text[size()] is
 // an AddressSanitizer report and not a silent read of std::string's terminator.
 #include <algorithm>
+#include <clocale>
+#include <map>
 #include <pthread.h>
 #include <sys/mman.h>
 #include <cstdint>
@@ -47,6 +59,35 @@ using iora::parsers::Json;
 using iora::parsers::ParseLimits;
 using iora::parsers::ParseResult;
 using iora::parsers::SerializeOptions;
+
+// branch counters (evidence: which branches of the real code the run reached)
+static std::map<std::string, unsigned long long> g_count;
+static bool g_nonC = false; // a non-"C" numeric locale is active
+static void countValue(const Json& j)
+{
+  switch (j.type())
+  {
+  case iora::parsers::JsonType::Null: ++g_count["value.null"]; break;
+  case iora::parsers::JsonType::Boolean: ++g_count["value.bool"]; break;
+  case iora::parsers::JsonType::Int: ++g_count["value.int"]; break;
+  case iora::parsers::JsonType::Double:
+  {
+    double d = j.getDouble();
+    ++g_count[std::isfinite(d) ? "value.double" : std::isnan(d) ? "value.double-nan" : "value.double-inf"];
+    if (g_nonC) ++g_count["value.double-under-non-C-locale"];
+    break;
+  }
+  case iora::parsers::JsonType::String: ++g_count[j.getString().size() > 64 ? "value.string>64" : "value.string"]; break;
+  case iora::parsers::JsonType::Array:
+    ++g_count[j.getArray().size() > 16 ? "value.array>16" : "value.array"];
+    for (const auto& e : j.getArray()) countValue(e);
+    break;
+  case iora::parsers::JsonType::Object:
+    ++g_count[j.getObject().size() > 16 ? "value.object>16" : "value.object"];
+    for (const auto& p : j.getObject()) countValue(p.second);
+    break;
+  }
+}
 
 static const char* kindOf(const std::string& m)
 {
@@ -84,6 +125,7 @@ static std::string showErr(const ParseResult& r)
 {
   std::ostringstream o;
   const char* k = kindOf(r.error.message);
+  ++g_count[std::string("parse.err.") + (k ? k : "unknown")];
   o << "err " << (k ? std::string(k) : "unknown:" + vh::toHex(r.error.message)) << " " << r.error.where.offset << " "
     << r.error.where.line << " " << r.error.where.column;
   return o.str();
@@ -267,6 +309,9 @@ static std::string serAnswer(const std::string& text, const Json& v)
   Text txt(tb);
   ParseResult r = Json::parse(txt.sv(), ParseLimits{});
   bool eq = r.ok && r.value == v;
+  ++g_count[eq ? "ser.reparse-equal" : "ser.reparse-not-equal"];
+  ++g_count[text.size() > 1024 ? "ser.text>1KiB" : "ser.text<=1KiB"];
+  countValue(v);
   return vh::toHex(text) + (eq ? " 1" : " 0");
 }
 
@@ -373,7 +418,10 @@ static std::string step(const std::vector<std::string>& t)
       lim.stringLengthMax = s;
       Text txt(b);
       ParseResult r = Json::parse(txt.sv(), lim);
+      ++g_count[b.size() > 1024 ? "parse.text>1KiB" : b.size() > 64 ? "parse.text>64B" : "parse.text<=64B"];
       if (!r.ok) return showErr(r);
+      ++g_count["parse.ok"];
+      countValue(r.value);
       std::string o = "ok ";
       dump(r.value, true, o);
       return o;
@@ -405,6 +453,140 @@ static std::string step(const std::vector<std::string>& t)
       opt.sortKeys = t[2] == "1";
       opt.indent = std::string(ind.begin(), ind.end());
       return serAnswer(v.serialize(opt), v);
+    }
+    if (t.size() == 3 && t[0] == "locale")
+    {
+      const char* r = std::setlocale(LC_NUMERIC, t[1].c_str());
+      if (!r) return "locale-unavailable";
+      const char* dp = std::localeconv()->decimal_point;
+      std::string d = dp ? dp : "";
+      g_nonC = d != ".";
+      ++g_count[g_nonC ? "locale.non-C" : "locale.C"];
+      return "locale " + (d.empty() ? std::string("-") : vh::toHex(d));
+    }
+    if (t.size() == 10 && t[0] == "serlim")
+    {
+      ParseLimits lim;
+      vh::Bytes ind;
+      if (!readLimits(t, 1, lim) || (t[5] != "0" && t[5] != "1") || (t[6] != "0" && t[6] != "1") || !vh::ofHex(t[7], ind)) return "bad-op";
+      if (t[8].empty() || t[8][0] != 'v') return "bad-op";
+      Json v;
+      std::string out;
+      if (!loadSrc(t[8], v, out)) return out;
+      if (!checkOrder(v, t[9])) return "order-changed";
+      SerializeOptions opt;
+      opt.pretty = t[5] == "1";
+      opt.sortKeys = t[6] == "1";
+      opt.indent = std::string(ind.begin(), ind.end());
+      std::string text = v.serialize(opt);
+      vh::Bytes tb(text.begin(), text.end());
+      Text txt(tb);
+      ParseResult r = Json::parse(txt.sv(), lim);
+      bool eq = r.ok && r.value == v;
+      ++g_count[eq ? "serlim.reparse-equal" : "serlim.reparse-not-equal"];
+      countValue(v);
+      return std::to_string(text.size()) + (eq ? " 1" : " 0");
+    }
+    if (t.size() >= 3 && t[0] == "api")
+    {
+      auto readV = [](const std::string& body, Json& v) {
+        VReader rd(body);
+        v = rd.value();
+        return !rd.bad && rd.i == body.size();
+      };
+      Json result, operand;
+      if (t[1] == "u64" && t.size() == 3)
+      {
+        unsigned long long n;
+        if (!vh::parseNat(t[2], n)) return "bad-op";
+        result = Json(static_cast<std::uint64_t>(n));
+        ++g_count[n > 9223372036854775807ULL ? "api.u64>INT64_MAX" : "api.u64"];
+      }
+      else if (t[1] == "f32" && t.size() == 3)
+      {
+        vh::Bytes b;
+        if (!vh::ofHex(t[2], b) || b.size() != 4) return "bad-op";
+        std::uint32_t bits = (std::uint32_t(b[0]) << 24) | (std::uint32_t(b[1]) << 16) | (std::uint32_t(b[2]) << 8) | std::uint32_t(b[3]);
+        float f;
+        std::memcpy(&f, &bits, 4);
+        result = Json(f);
+        ++g_count["api.float"];
+      }
+      else if (t[1] == "initlist" && t.size() == 3)
+      {
+        Json a;
+        if (!readV(t[2], a) || !a.isArray() || a.getArray().size() > 4) return "bad-op";
+        const Json::Array& x = a.getArray();
+        switch (x.size())
+        {
+        case 0: result = Json(std::initializer_list<Json>{}); break;
+        case 1: result = Json(std::initializer_list<Json>{x[0]}); break;
+        case 2: result = Json(std::initializer_list<Json>{x[0], x[1]}); break;
+        case 3: result = Json(std::initializer_list<Json>{x[0], x[1], x[2]}); break;
+        default: result = Json(std::initializer_list<Json>{x[0], x[1], x[2], x[3]}); break;
+        }
+        operand = a;
+        ++g_count["api.initializer-list"];
+      }
+      else if (t[1] == "pushback" && t.size() == 4)
+      {
+        Json v;
+        if (!readV(t[2], operand) || !readV(t[3], v)) return "bad-op";
+        result = operand;          // copy assignment
+        if (v.isString()) result.push_back(std::move(v)); else result.push_back(v);
+        ++g_count[operand.isArray() ? "api.push_back" : "api.push_back-on-non-array"];
+      }
+      else if (t[1] == "setidx" && t.size() == 5)
+      {
+        Json v;
+        unsigned long long i;
+        if (!readV(t[2], operand) || !vh::parseNat(t[3], i) || i > 64 || !readV(t[4], v)) return "bad-op";
+        result = operand;
+        result[static_cast<std::size_t>(i)] = v;
+        ++g_count["api.operator[](index)"];
+      }
+      else if (t[1] == "setkey" && t.size() == 5)
+      {
+        Json v;
+        vh::Bytes k;
+        if (!readV(t[2], operand) || !vh::ofHex(t[3], k) || !readV(t[4], v)) return "bad-op";
+        result = operand;
+        result[std::string(k.begin(), k.end())] = v;
+        ++g_count["api.operator[](key)"];
+      }
+      else
+        return "bad-op";
+      std::string o = "ok ";
+      dump(result, true, o);
+      o += ' ';
+      dump(operand, true, o);
+      SerializeOptions opt;
+      opt.sortKeys = true;
+      return o + " " + serAnswer(result.serialize(opt), result);
+    }
+    if (t.size() == 3 && t[0] == "deepser")
+    {
+      unsigned long long d;
+      if ((t[1] != "a" && t[1] != "o") || !vh::parseNat(t[2], d) || d > 2000000) return "bad-op";
+      Json v(std::int64_t(7));
+      for (unsigned long long i = 0; i < d; ++i)
+      {
+        if (t[1] == "a") { Json::Array a; a.push_back(std::move(v)); v = Json(std::move(a)); }
+        else { Json o = Json::object(); o["k"] = std::move(v); v = std::move(o); }
+      }
+      std::string text = v.dump();
+      ParseLimits lim;
+      lim.depthMax = d + 1;
+      ParseResult r = Json::parse(std::string_view(text), lim);
+      Json copy = v;
+      bool eq = r.ok && r.value == v && copy == v;
+      return "ok " + std::to_string(text.size()) + (eq ? " 1" : " 0");
+    }
+    if (t.size() == 1 && t[0] == "counters")
+    {
+      std::string o = "counters";
+      for (const auto& p : g_count) o += " " + p.first + "=" + std::to_string(p.second);
+      return o;
     }
     if (t.size() == 3 && t[0] == "pvia")
     {
